@@ -339,3 +339,10 @@ Theorem run_pend_inv v es : forall s, pend_inv s -> pend_inv (run hmac mf pb v s
 Proof. induction es as [|e es IH]; intros s H; [exact H|]. cbn. apply IH. apply step_pend_inv. exact H. Qed.
 
 End Nonce.
+
+(* non-vacuity: two challenges issued on one connection; the pending one is the second *)
+Lemma latest_issued_satisfiable :
+  let es := [ERegister; EOpen 1 0; EMsg 1 (p1 1 false); EMsg 1 (p1 1 false)] in
+  pending_of (run toy_hmac 5 20 current_variant init es) 1 = Some 2 /\
+  last_issued toy_hmac 5 20 current_variant init es 1 None = Some 2.
+Proof. split; vm_compute; reflexivity. Qed.
